@@ -44,6 +44,56 @@ CHECKS = {
          'distribute x smoothing is compared by TLC.',
     note='Trusted: TLC, float->rational recovery, materialiser. One (folded) part of speech per graph.',
     design='DESIGN.md section 4 C15'),
+ 'C05': dict(
+    engine='store',
+    category='model_checking',
+    technique='TLA+ state machine WnStore/MC_Store (add/remove/ILI with unfolded transactions and faults) model-checked by TLC; '
+              'implementation state graph explored breadth-first with snapshot databases + random histories, every step judged by TLC (Judge_Store)',
+    text='The database is a TLA+ state machine over a universe of seven related lexicons (bases, extension, extension of an '
+         'extension, dependent, two versions, prefix id); TLC checks Canonical (links in step, no residue, extensions have '
+         'bases), WholeOperationsOnly and AbortRestores on every history of the bounded instance. The real code is then driven '
+         'through every operation of the alphabet from a snapshot database of every abstract state it reaches (depth-bounded) '
+         'and through random long histories; after each call the observed state (installed order, ILI table, lookup tables, '
+         'dependency/extension links via SQL and via the API, ownerless rows, FK/integrity/ownership audits) must equal the '
+         'model successor, and the owned rows of each lexicon must be the same function of the lexicon as in a fresh database.',
+    note='Trusted: TLC, SQLite, the observer (natural-key dump), the materialiser. Tags/pronunciations have no owner column: '
+         'they are counted per base lexicon; their survival after removing an extension is a listed known finding.',
+    design='DESIGN.md section 4 C05'),
+ 'C06': dict(
+    engine='store',
+    category='model_checking',
+    technique='TLA+ WnStore transactions with a Fault action (TLC: AbortRestores, WholeOperationsOnly); exhaustive fault '
+              'enumeration on the code (every progress callback, every denied write, close(), corrupted references) judged by TLC',
+    text='Model: add is one transaction per resource, remove one per matched lexicon, a fault may strike between any two '
+         'steps and restores the committed state. Binding: for each scenario every callback k=1..K and every write '
+         'authorisation n=1..N is made to fail, plus an exception from close() and every position of six corruption kinds; '
+         'TLC checks that the raw database (row ids included) is unchanged after a failed add, that an interrupted remove '
+         'leaves a prefix of complete per-lexicon removals, and that a following valid operation gives the model state.',
+    note='Trusted: TLC, SQLite, sqlite3 authorizer semantics. close() runs after the commit by design: all-or-nothing there.',
+    design='DESIGN.md section 4 C06'),
+ 'C07': dict(
+    engine='store',
+    category='model_checking',
+    technique='TLA+ WnStore (route-independent Add, Idempotent, SkipWhole checked by TLC); 14 supply routes x resources x start '
+              'states executed on the code, each step judged by TLC, content digests judged functional in the resource',
+    text='The model action Add does not mention the route; TLC checks idempotence and whole-skipping of extensions without base. '
+         'Every resource is supplied as xml, gz, xz, package, collection, tar/tar.gz/tar.xz of file, package and collection, '
+         'in-memory resource and another LMF version, then repeated through another route; TLC checks the successor state, '
+         'that repetition changes nothing (raw digest), inputs unchanged, no temporary file left, and that the stored content '
+         'is a function of the resource only.',
+    note='Trusted: TLC, stdlib gzip/lzma/tarfile. The order in which packages of a collection are added is unspecified.',
+    design='DESIGN.md section 4 C07'),
+ 'C19': dict(
+    engine='store',
+    category='model_checking',
+    technique='TLA+ WnStore AddIli (TLC: IliOnly, IliIdempotent, IliCommutes); breadth-first + all interleavings of lexicon adds '
+              'and index loads executed on the code, judged by TLC',
+    text='AddIliResult gives every listed id the file status (default active) and definition and touches nothing else; TLC proves '
+         'idempotence and commutation with lexicon adds on the bounded instance; the code is run over the state graph of '
+         '{lexicon resources, removals, three index files (upper/lower-case header, missing columns, CRLF)} and all '
+         'interleavings; the ilis table, wn.ilis() and the per-lexicon row digests are compared by TLC.',
+    note='Trusted: TLC, SQLite. ILIs that no synset uses are visible only in the table dump when a lexicon is installed.',
+    design='DESIGN.md section 4 C19'),
 }
 
 REASON_TODO = 'check not built yet in this round (planned, see DESIGN.md section 8)'
@@ -79,6 +129,8 @@ def main():
         'engines': [
             {'name': 'taxonomy', 'path': 'spec/WnTaxonomy.tla', 'serves_properties': ['C13', 'C14', 'C15'],
              'kind_free_text': 'TLA+ operators over hypernym graphs + TLC judge of recorded results'},
+            {'name': 'store', 'path': 'spec/WnStore.tla', 'serves_properties': ['C05', 'C06', 'C07', 'C08', 'C19'],
+             'kind_free_text': 'TLA+ state machine of the lexicon database + TLC judge of recorded steps'},
         ],
         'checks': checks,
         'not_applicable': [{'property_id': p['id'], 'reason': REASON_TODO}
